@@ -11,6 +11,7 @@ import (
 	"fmt"
 	"io"
 	"math"
+	"os"
 	"syscall"
 	"testing"
 
@@ -105,6 +106,15 @@ func runReader(c *ctx) {
 		// specified; the limits must hold all the same afterwards.
 		sr.NegativeCounts = 6
 	}
+	nCalls := tp.Range(1, 30)
+	if !withErr && tp.Bool(1, 400) {
+		// A wrapped reader that returns (0, nil) a hundred times and more in a
+		// row (allowed, if discouraged): nothing is delivered meanwhile, and no
+		// error is invented.
+		sr.ZeroReads, sr.MaxZeroRun, sr.ZeroOutOf4 = true, 90+tp.Choose(60), 4
+		nCalls = 200
+		rc.Stats.Probe("long-run-of-empty-reads")
+	}
 	lr := ioutil.LimitReader(sr, n)
 	c.logf("reader: stream=%d limit=%d chunk=%d zero=%v data+eof=%v errAt=%d sticky=%v errData=%v",
 		l, n, sr.MaxChunk, sr.ZeroReads, sr.DataEOF, sr.ErrAt, sr.ErrSticky, sr.ErrData)
@@ -112,7 +122,6 @@ func runReader(c *ctx) {
 
 	var delivered uint64 // bytes handed to the caller so far
 	var under uint64     // bytes the wrapped reader has returned so far
-	nCalls := tp.Range(1, 30)
 	past := 0
 	for i := 0; i < nCalls; i++ {
 		var bufLen int
@@ -432,6 +441,16 @@ func checkForwarded(rc *kernel.RunCtx, c *ctx, sw *kernel.SimWriter, all []byte,
 	return true
 }
 
+// byteSimWriter adds WriteByte to the simulated writer (same faults, same
+// record of what was written).
+type byteSimWriter struct{ *kernel.SimWriter }
+
+func (w byteSimWriter) WriteByte(c byte) error {
+	_, err := w.SimWriter.Write([]byte{c})
+
+	return err
+}
+
 // errPool: kinds of errors a wrapped reader may fail with.
 type eofLikeError struct{ op string }
 
@@ -491,12 +510,21 @@ func runWriter(c *ctx) {
 	if tp.Bool(1, 3) {
 		sw.FailRate = 4
 		// Kinds of write errors, among them the one that package os retries.
-		sw.Errs = []error{kernel.ErrInjected, syscall.EINTR, io.ErrShortWrite, fmt.Errorf("write: %w", syscall.EPIPE)}
+		sw.Errs = []error{kernel.ErrInjected, syscall.EINTR, io.ErrShortWrite, fmt.Errorf("write: %w", syscall.EPIPE),
+			os.ErrClosed, io.ErrClosedPipe, fmt.Errorf("log file: %w", os.ErrClosed)}
+	}
+	// The wrapped writer may offer more than Write (io.ByteWriter, as a
+	// bufio.Writer or a bytes.Buffer does); what arrives through it counts like
+	// what arrives through Write.
+	var wrapped io.Writer = sw
+	if tp.Bool(1, 3) {
+		wrapped = byteSimWriter{sw}
+		rc.Stats.Probe("wrapped-writer-offers-WriteByte")
 	}
 	if tp.Bool(1, 6) {
 		sw.ShortNil = 4
 	}
-	tw := ioutil.NewTruncatedWriter(sw, limit)
+	tw := ioutil.NewTruncatedWriter(wrapped, limit)
 	c.logf("writer: limit=%d failing=%v", limit, sw.FailRate > 0)
 	c.sig = kernel.HashBytes(c.sig, []byte(fmt.Sprint("W", limit, sw.FailRate)))
 
